@@ -616,3 +616,7 @@ def fold_guards(sg, S, numeric):
                     if ok:
                         out.append((cid, clen, cty, bar))
     return out
+
+
+def thorough_extra(R, here):
+    run_witnesses(R, here, {'C11PrivateCommonCfg': 'naming the PCI common configuration struct from outside the crate'}, 'W3')
